@@ -271,7 +271,14 @@ pub fn run_check(replay: Option<Value>) -> i32 {
             for (si, sc, pinned) in scenes(backward).into_iter().enumerate().flat_map(|(si, sc)| {
                 // every scene; the first one once more with first_step = max_step = span/10.005: the steps run
                 // at max_step and the piece left for the last one is half a per cent of it
-                let again = if si == 0 { Some((4usize, Scene { prob: sc.prob.clone(), x0: sc.x0, xend: sc.xend, name: format!("{} (steps pinned at max_step)", sc.name) }, true)) } else { None };
+                // (a slow decay, so that every method really runs at max_step)
+                let again = if si == 0 {
+                    let p0 = crate::problems::base(crate::problems::Base::Decay(-0.05));
+                    let p = if backward { crate::problems::reflect(&p0) } else { p0 };
+                    Some((4usize, Scene { name: format!("{} (steps pinned at max_step)", p.name), prob: p, x0: sc.x0, xend: sc.xend }, true))
+                } else {
+                    None
+                };
                 std::iter::once((si, sc, false)).chain(again)
             }) {
                 let mut cfg = scene_cfg(*m, &sc, 1e-5);
